@@ -5,6 +5,7 @@ import Proofs.Tie.Wire
 `bindata.UnmarshalBinary` and `UserProp.UnmarshalBinary`/`fill`, rendered from `wiretypes.go` on every run
 (extract/wiregen.go). Rests on `Proofs.Tie.Wire` for the two-byte length prefix.
 -/
+set_option linter.unusedSimpArgs false   -- a test may be spelled `== 0` or `<= 0`; an argument is used under one spelling only
 namespace Mq.Tie.WireVar
 open Mq Mq.Tie.Wire
 
@@ -26,11 +27,12 @@ theorem bindata_dec (old : Bytes) : Gen.bindata.dec old = decBin old := by
   · simp [h1]
   · by_cases h2 : binLen data = 0
     · simp [h2]
-    · have hs : (data.take (binLen data + 2)).drop 2 = (data.drop 2).take (binLen data) := by
+    · have h2' : ¬ binLen data ≤ 0 := by omega
+      have hs : (data.take (binLen data + 2)).drop 2 = (data.drop 2).take (binLen data) := by
         rw [List.drop_take]; simp
       have hl : ((data.drop 2).take (binLen data)).length = binLen data := by
         simp; omega
-      simp only [h1, h2, if_false, hs, copy_fresh _ _ hl, hl]
+      simp only [h1, h2, h2', if_false, hs, copy_fresh _ _ hl, hl]
 
 /-- **`UserProp.UnmarshalBinary`**: key, the offset of the value, value, and the width -/
 theorem userProp_dec : Gen.UserProp.dec = decPair := by
